@@ -19,6 +19,7 @@ import shutil
 import subprocess
 import sys
 import tempfile
+import time as _time_mod
 
 from . import c01 as C1
 from . import c08_lib as L
@@ -32,7 +33,9 @@ RULE = ('C01 operation histories restricted to counter/gauge/summary/histogram x
         'classes (ordinary, >2^53, tiny, negative, +-Inf, NaN, -0.0, ints incl. unconvertible, bools) x bucket layouts '
         '(default, negative first bound, duplicates, -0.0/0.0, int bounds, huge) x help texts, namespace/subsystem/unit; '
         'addresses parent | positional | keyword (permuted, wrong names/count) | both; labels()/remove()/clear(); fixed '
-        'witnesses of the known findings first, then exhaustive depth-2 over the C01 12-call alphabets (every gauge mode), '
+        'witnesses of the known findings first, then exhaustive depth-2 over the C01 12-call alphabets (every gauge mode; for '
+        'gauges plus set_to_current_time() on a child and on the parent), on gauges 15% of the random updates are '
+        'set_to_current_time() under the scripted clock (the model runs set(clock reading)), '
         'every amount class through every method, then random histories of length 3-40 (20% with remove/clear); both real '
         'back-ends are collected after every step; non-trivial = at least 3 accepted updates, at least one labelled child '
         'or two families, and both collections non-empty; distinct by the whole history')
@@ -49,7 +52,10 @@ TRUSTED = ['Section hypotheses of props/C12.v: FL1 (v == 0.0 + v numerically, Na
            'C12_equiv_hist_len replace it by `fewer than 2^53 observe() calls` / `a history shorter than 2^53` '
            '(C12_counts_bounded_by_observes, proofs/EquivLenProofs.v)',
            'OCaml float + < <= = (compared with CPython on every case)']
-ASSUMPTIONS = ['one process, one thread, one registry: family names pairwise distinct and no sample-name collisions (C06)',
+ASSUMPTIONS = ['Gauge.set_to_current_time() is run on both real back-ends with time.time interposed by the scripted clock of the '
+               'history (reading t); the model runs set(t) - what the method is documented to do; a mostrecent gauge so written '
+               'counts as set',
+               'one process, one thread, one registry: family names pairwise distinct and no sample-name collisions (C06)',
                'label names of a family pairwise distinct; `le` is reserved by Histogram ONLY and `quantile` by Summary ONLY (the library '
                'rejects them at construction there); on every other type they are ordinary label names and are generated',
                'bucket bounds are not NaN',
@@ -130,6 +136,51 @@ def flatten(metrics):
     return out
 
 
+_TIME_TIME = _time_mod.time
+
+
+class controlled_clock:
+    """time.time() reads t while a Gauge.set_to_current_time() call runs.  Covers `import time; time.time()` (the attribute of
+    the time module) and `from time import time` (a module global of prometheus_client bound to the clock at import)."""
+
+    def __init__(self, t):
+        self.t = t
+        self.saved = []
+
+    def __enter__(self):
+        fake = (lambda t: (lambda: t))(self.t)
+        for name, mod in list(sys.modules.items()):
+            if mod is None or not (name == 'prometheus_client' or name.startswith('prometheus_client.')):
+                continue
+            for k, v in list(vars(mod).items()):
+                if v is _TIME_TIME:
+                    self.saved.append((mod, k, v))
+                    setattr(mod, k, fake)
+        self.saved.append((_time_mod, 'time', _time_mod.time))
+        _time_mod.time = fake
+
+    def __exit__(self, *exc):
+        for mod, k, v in reversed(self.saved):
+            setattr(mod, k, v)
+        return False
+
+
+def apply_mop(t, mop, now):
+    """C01 method calls plus ['settime']: Gauge.set_to_current_time() under a clock reading `now` (documented as: set the
+    gauge to the current unixtime; the model runs set(now))"""
+    if mop[0] == 'settime':
+        with controlled_clock(now):
+            return t.set_to_current_time()
+    return C1.apply_mop(t, mop)
+
+
+def model_op(i, op):
+    """the operation the model runs: set_to_current_time() at clock reading t is set(t)"""
+    if op[0] == 'upd' and op[3][0] == 'settime':
+        return ['upd', op[1], op[2], ['set', ['f', C1.fhex(clock(i))]]]
+    return op
+
+
 def run_history(case, collect0, tick):
     from prometheus_client import CollectorRegistry
 
@@ -150,7 +201,7 @@ def run_history(case, collect0, tick):
         try:
             m = fams[op[1]]
             if op[0] == 'upd':
-                C1.apply_mop(C1.target(m, op[2]), op[3])
+                apply_mop(C1.target(m, op[2]), op[3], clock(i))
             elif op[0] == 'labels':
                 C1.target(m, op[2])
             elif op[0] == 'remove':
@@ -318,7 +369,7 @@ class Track:
             k = self.key(f, op[2])
             if k is not None:
                 self.created[f].add(k)
-                if op[0] == 'upd' and outcome == 'ok' and fd['kind'] == 'gauge' and op[3][0] == 'set':
+                if op[0] == 'upd' and outcome == 'ok' and fd['kind'] == 'gauge' and op[3][0] in ('set', 'settime'):
                     self.setlog.add((f, k))
         elif op[0] == 'remove' and outcome == 'ok':
             k = tuple(str(C1.dec_lv(v)) for v in op[2])
@@ -523,7 +574,7 @@ def d_mem_sample(s):
 def model(m, case):
     ptab, ftab = le_tables(case)
     metas = [[fd.get('mode', 'all') if fd['kind'] == 'gauge' else '', help_of(fd)] for fd in case['fams']]
-    ops = [[e_float(clock(i)), C1.sx_op(o)] for i, o in enumerate(case['ops'])]
+    ops = [[e_float(clock(i)), C1.sx_op(model_op(i, o))] for i, o in enumerate(case['ops'])]
     r = m.call('c12_run', PIDTOK, [sx_family(fd) for fd in case['fams']], metas, ptab, ftab, ops,
                watch(len(case['ops'])))
     files = []
@@ -633,6 +684,16 @@ def gen_family(rng, idx, kind=None, layouts='good', pid_label=False, nlabels=Non
     return fd
 
 
+SETTIME_SHARE = 0.15
+
+
+def gen_mop(rng, fd):
+    """the C01 method calls; on a gauge also set_to_current_time()"""
+    if fd['kind'] == 'gauge' and rng.random() < SETTIME_SHARE:
+        return ['settime']
+    return C1.gen_mop(rng, fd)
+
+
 def gen_history(rng, nfam=None, length=None, removal=False, layouts='good', pid_label=False, odd=False):
     nfam = nfam or rng.choice([1, 1, 2, 2, 3, 4])
     fams = [gen_family(rng, i, layouts=layouts if i == 0 else 'good', pid_label=pid_label and i == 0,
@@ -660,7 +721,7 @@ def gen_history(rng, nfam=None, length=None, removal=False, layouts='good', pid_
         elif r < 0.17:
             ops.append(['labels', f, C1.gen_addr(rng, fd, small)])
         else:
-            ops.append(['upd', f, C1.gen_addr(rng, fd, small), C1.gen_mop(rng, fd)])
+            ops.append(['upd', f, C1.gen_addr(rng, fd, small), gen_mop(rng, fd)])
     return dict(fams=fams, ops=ops)
 
 
@@ -700,6 +761,12 @@ def fixed_cases():
                                   ['upd', 0, 'P', ['inc']], ['upd', 0, B, ['dec', ['i', 10 ** 400]]]])
         yield dict(fams=[fam('gauge', 'g', [], mode=mode)], ops=[])
         yield dict(fams=[fam('gauge', 'g', [], mode=mode)], ops=[['upd', 0, 'P', ['set', ['i', 0]]]])
+        # set_to_current_time(): alone, after a set(), before a set()/inc(), on a second child, on a parent with label names
+        yield dict(fams=[fam('gauge', 'g', [], mode=mode)], ops=[['upd', 0, 'P', ['settime']]])
+        yield dict(fams=[fam('gauge', 'g0', [], mode=mode), g],
+                   ops=[['upd', 0, 'P', ['set', ['i', 5]]], ['upd', 0, 'P', ['settime']], ['upd', 1, A, ['settime']],
+                        ['upd', 1, B, ['set', ['f', f(2.5)]]], ['upd', 1, 'P', ['settime']], ['upd', 1, B, ['settime']],
+                        ['upd', 1, A, ['inc', ['i', 1]]], ['upd', 0, 'P', ['set', ['f', f(-1.0)]]], ['upd', 0, 'P', ['settime']]])
     # a USER label named le / quantile / pid on every type that does not reserve the name (inside the domain of the
     # theorem: keys_wf excludes le for histograms only, wf_reg excludes pid for gauges only), alone and next to an ordinary
     # label on either side of it; label values float() accepts - two spellings of one number - and rejects
@@ -741,6 +808,8 @@ def cases(ctx):
     # every gauge mode
     for kind in KINDS:
         alpha = [o for o in C1.alphabet(kind) if o[0] not in ('remove', 'clear')]
+        if kind == 'gauge':
+            alpha += [['upd', 0, A, ['settime']], ['upd', 0, 'P', ['settime']]]
         variants = [dict(mode=m) for m in MODES] if kind == 'gauge' else [dict()]
         for v in variants:
             fd = fam(kind, 'x', ['l'], **v)
